@@ -173,11 +173,14 @@ func (s *socket) GetOption(option string) (interface{}, error) {
 }
 
 func (s *socket) AddPipe(pp protocol.Pipe) error {
+	s.Lock()
+	sendQLen := s.sendQLen
+	s.Unlock()
 	p := &pipe{
 		p:      pp,
 		s:      s,
 		closeQ: make(chan struct{}),
-		sendQ:  make(chan *protocol.Message, s.sendQLen),
+		sendQ:  make(chan *protocol.Message, sendQLen),
 	}
 	pp.SetPrivate(p)
 	s.Lock()
